@@ -136,6 +136,50 @@ def run(ck, P):
                 ck.ob("C04.2-REFPTR-STORE", f.site("store %s = %s" % (_tail(lv), S(ev.rhs))), ok,
                       "'%s = %s' at line %d stores %s" % (lv, S(ev.rhs), ev.line, "a counted reference / fresh object" if ok else
                                                          "a borrowed pointer: the holder can outlive the object it names (no reference is taken)"))
+    # bulk copies: memcpy(fresh, template, sizeof(R)) copies R's ref-counted pointer fields as borrowed pointers; each must be
+    # re-stored as a counted reference (or NULL) on every path that hands the fresh object out
+    def _flat(rec, prefix=""):
+        out = []
+        r = P.record(rec)
+        for fd in (r or {}).get("fields", []):
+            if fd.get("rec") and not fd.get("is_ptr"):
+                out += _flat(fd["rec"], prefix + fd["name"] + ".")
+            elif fd.get("is_ptr") and fd["t"] in RT:
+                out.append(prefix + fd["name"])
+        return out
+    for f in core:
+        for mc in f.calls("memcpy"):
+            d0 = strip(mc.args[0])
+            if d0["k"] != "var" or d0.get("vk") != "local":
+                continue
+            dn = d0["name"]
+            fresh = [d for d in f.events() if d.kind in ("decl", "assign") and d.lhs is not None and S(d.lhs) == dn and d.rhs is not None
+                     and strip(d.rhs)["k"] == "call" and strip(d.rhs).get("callee") == "m_mem_new"]
+            rec = (d0.get("t", "") or "").replace("*", "").replace("const ", "").strip()
+            if not fresh or not P.record(rec) or cval(mc.args[2]) != P.record(rec).get("size"):
+                continue
+            flds = _flat(rec)
+            if not flds:
+                continue
+            nst += 1
+            ck.analysed(f)
+            exm = rules.Expander(f, stable=False)
+            badc = None
+            np_ = 0
+            for path in f.paths():
+                evs = list(rules.path_events(f, path))
+                if mc not in evs or not any(e.kind == "ret" and e.e is not None and S(e.e) == dn for e in evs):
+                    continue
+                np_ += 1
+                rest = evs[evs.index(mc) + 1:]
+                for fp in flds:
+                    st_ = [e for e in rest if e.kind == "assign" and e.e["op"] == "=" and S(e.lhs) == "%s->%s" % (dn, fp)]
+                    if not st_ or not all(exm.at(e, e.rhs).startswith("m_mem_ref(") or exm.at(e, e.rhs) == "NULL" for e in st_):
+                        badc = (fp, path)
+            ck.ob("C04.2-REFPTR-STORE", f.site("memcpy(%s, …, sizeof(%s))" % (dn, rec)), badc is None and np_ > 0,
+                  "%d path(s) hand out the copy; the copied ref-counted pointers %s are each re-stored as counted references" % (np_, flds) if badc is None else
+                  "the copy keeps the template's '%s' as a borrowed pointer on a path that hands it out: the in-flight object can outlive what it names "
+                  "(no reference is taken)" % badc[0], path=rules.fmt_path(f, badc[1]) if badc else None)
     for ev in P.calls_to("m_thpool_add"):
         if ev.fn.unit.startswith("Lib/core/"):
             nst += 1
